@@ -113,6 +113,16 @@ func newPackage(program *loader.Program, pkgInfo *loader.PackageInfo, plugins []
 	for _, fileFuncs := range fileInfos {
 		reserved = union(reserved, fileFuncs.funcNames)
 	}
+	// every package level name that the user declared is taken as well, whether it is called or not.
+	scope := pkgInfo.Pkg.Scope()
+	for _, name := range scope.Names() {
+		if file := program.Fset.File(scope.Lookup(name).Pos()); file != nil {
+			if _, fname := filepath.Split(file.Name()); fname == derivedFilename {
+				continue
+			}
+		}
+		reserved[name] = struct{}{}
+	}
 
 	printer := newPrinter(pkgInfo.Pkg.Name())
 	qual := newQualifier(printer, pkgInfo.Pkg)
